@@ -46,7 +46,7 @@ func H_C17_state() {
 	ps := shapeActor("shape")
 	pk := nd.Choice("pending", 3)
 	flag := nd.Choice("rebalance", 2)
-	st := Build(ps, Opts{TakeRate: true, Params: true, Rewards: true})
+	st := Build(ps, Opts{TakeRate: true, Params: true, Rewards: true, BigPool: true})
 	e := st.E
 	pendingUnbondings(st, pk)
 	InstallRedelegation(e, 1, 1, 0, 0, nd.IntRange("r1", "1", Pow30), nd.TimeRange("rc1", TLo, THi))
